@@ -190,3 +190,30 @@ func VerifHarness_C12_NegControl() {
 	out := ad.Apply(c)
 	verifAssert(verifNear(float64(out.X), float64(c.X), 1e-6), "negative control: D50->D65 leaves X unchanged (wrong on purpose)")
 }
+
+// VerifHarness_C12_WhiteToWhiteXYZ: the obligations of WhiteToWhite for the XYZ
+// constructor called directly with free XYZ white points (Y = 1): a shortcut keyed on a
+// particular XYZ value is reachable here with float32-representable inputs, which the
+// xyY route (X = x/y, rounded) cannot produce.
+func VerifHarness_C12_WhiteToWhiteXYZ() {
+	a, _ := verifWhiteXYZ()
+	b, _ := verifWhiteXYZ()
+	ra := verifCone(float64(a.X), float64(a.Y), float64(a.Z))
+	rb := verifCone(float64(b.X), float64(b.Y), float64(b.Z))
+	ad := AdaptBetweenXYZWhitePoints(a, b)
+	verifReach("adapted-xyz")
+	got := matrix.Matrix3(ad).MulV(a.ToV())
+	verifAssert(verifNear(got[0], float64(b.X), 1e-6), "XYZ constructor: A->B does not map white A to white B (X)")
+	verifAssert(verifNear(got[1], float64(b.Y), 1e-6), "XYZ constructor: A->B does not map white A to white B (Y)")
+	verifAssert(verifNear(got[2], float64(b.Z), 1e-6), "XYZ constructor: A->B does not map white A to white B (Z)")
+	inv := verifBradfordInv()
+	for r := 0; r < 3; r++ {
+		for c := 0; c < 3; c++ {
+			var ref float64
+			for k := 0; k < 3; k++ {
+				ref += inv[r][k] * (rb[k] / ra[k]) * verifBradford[k][c]
+			}
+			verifAssert(verifNear(verifA(matrix.Matrix3(ad), r, c), ref, 1e-6), "XYZ constructor: adaptation matrix differs from the Bradford-method matrix")
+		}
+	}
+}
